@@ -5,7 +5,8 @@ import ast
 
 from ..astutil import dotted, norm, strip_docstring, walk_body
 from ..dtree import decision_tree
-from ..finite import k_eq, k_is, k_none
+from ..facts import facts_in
+from ..finite import canon_cmp, k_eq, k_is, k_none
 from ..report import Checker
 from ..srcmodel import Func, Unsupported
 
@@ -135,7 +136,11 @@ def r_classify_sibling(ck: Checker) -> None:
         ck.violation("R-CLASSIFY-SIBLING", f, lp1[0], what, construct=f"check_annotations vs process_node_fields differ on {diff}")
     what = "check_annotations reads the annotations through get_type_hints and raises InvalidFieldAnnotations when any field is rejected"
     txt = norm(f.node)
-    ok = "get_type_hints(type_)" in txt and "raise InvalidFieldAnnotations(incorrect_fields)" in txt and "except NameError" in txt
+    tparam = f.node.args.args[0].arg
+    # the list the rejections are appended to is what is raised
+    errs = {norm(c.func.value) for c in walk_body(lp1[0].body) if isinstance(c, ast.Call) and isinstance(c.func, ast.Attribute) and c.func.attr == "append"}
+    raised = [r for r in walk_body(f.node.body) if isinstance(r, ast.Raise) and isinstance(r.exc, ast.Call) and dotted(r.exc.func) == "InvalidFieldAnnotations"]
+    ok = f"get_type_hints({tparam})" in txt and len(errs) == 1 and any([norm(a) for a in r.exc.args] == sorted(errs) for r in raised) and "except NameError" in txt
     (ck.holds if ok else ck.violation)("R-CLASSIFY-SIBLING", f, f.node, what, **({} if ok else {"construct": "check_annotations: normaliser / raise / forward-reference handling not recognised"}))
     isc = ck.repo.func("pyoak.node", "ASTNode.__init_subclass__")
     what = "every subclass definition runs check_annotations(cls, ASTNode)"
@@ -237,6 +242,7 @@ def r_quantify_all(ck: Checker) -> None:
         for p in ast.walk(fn):
             for c in ast.iter_child_nodes(p):
                 parents[id(c)] = p
+        fsem = facts_in(fn)
         argvars = {norm(st.targets[0]) for st in walk_body(fn.body) if isinstance(st, ast.Assign) and isinstance(st.value, ast.Call)
                    and dotted(st.value.func) == "get_args" and isinstance(st.targets[0], ast.Name)}
         uses: list[ast.AST] = []
@@ -264,10 +270,11 @@ def r_quantify_all(ck: Checker) -> None:
                 idx = norm(p.slice)
                 gp = parents.get(id(p))
                 # enumerated idiom: tuple[X, ...]  ->  len(args) == 2 and args[1] is Ellipsis ; then args[0]
-                if idx == "1" and isinstance(gp, ast.Compare) and norm(gp) == f"{norm(u)}[1] is Ellipsis":
+                k_ell = k_is(f"{norm(u)}[1]", "Ellipsis")
+                if idx == "1" and isinstance(gp, ast.Compare) and (canon_cmp(gp) or ("",))[0] == k_ell:
                     ok_n += 1
-                elif idx == "0" and "[1] is Ellipsis" in norm(_enclosing_if_test(p, parents) or ast.Constant(value="")):
-                    ok_n += 1
+                elif idx == "0" and fsem.at.get(id(p)) and all((k_ell, True) in st_ for st_ in fsem.at[id(p)]):
+                    ok_n += 1  # reached only where the annotation is the variadic tuple[X, ...]
                 else:
                     bad.append(f"member selected by position: {norm(p)}")
             elif isinstance(p, ast.Compare) and isinstance(p.ops[0], (ast.In, ast.NotIn)) and p.comparators[0] is u:
